@@ -361,10 +361,11 @@ def C11(ctx):
 def C12(ctx):
     f = ctx.facts("svg")
     d_doc = G.c12_r7(ctx, f)
-    S.c12_r1(ctx, f)
+    d_img = G.c12_r9(ctx, f)
+    S.c12_r1(soft_if(ctx, d_img, "C12.R9"), f)
     S.c12_r2(soft_if(ctx, d_doc, "C12.R7"), f)
     S.c12_r3(ctx, f)
-    S.c12_r4(ctx, f)
+    S.c12_r4(soft_if(ctx, d_doc and d_img, "C12.R7/R9"), f)
     d_col = S.c12_r8(ctx, f)
     S.c12_r5(soft_if(ctx, d_col, "C12.R8"), f)
     S.c12_r6(soft_if(ctx, d_doc, "C12.R7"), f)
@@ -382,8 +383,9 @@ def C13(ctx):
     I.c13_t1(ctx, f)
     I.c13_r2(ctx, f)
     d_doc = G.c12_r7(ctx, f)
+    d_img = G.c12_r9(ctx, f)
     S.c12_r8(ctx, f)
-    S.c12_r4(ctx, f)
+    S.c12_r4(soft_if(ctx, d_doc and d_img, "C12.R7/R9"), f)
     S.c12_r6(soft_if(ctx, d_doc, "C12.R7"), f)
     return dict(
         level="other",
@@ -498,7 +500,7 @@ def C18(ctx):
     d_frame = x("c18_r2", ctx, f)
     # size / gap / position reach image() through the public setters: whatever order they are called in (C14.P7 on this builder)
     Pp.c14_p7(ctx, f, rid="C18.P7")
-    S.c18_t1(ctx, f)
+    S.c18_t1(soft_if(ctx, d_frame, "C18.R2"), f)
     S.c18_r1(soft_if(ctx, d_frame, "C18.R2"), f)
     return dict(
         level="other",
